@@ -3,7 +3,7 @@
 (* behaviours), judged by TLC: every log node is one TLC state; C01/C02/C03/C09/C10 formulas are evaluated *)
 (* on the recorded (pre-state, step, post-state) triples; Conf_* compare the step with the specification's *)
 (* action operators (VaultSpec.tla).                                                                        *)
-EXTENDS Harbor, VaultSpec, Sweep, TLC, Json
+EXTENDS Harbor, VaultSpec, DutchV1, Esm, Sweep, TLC, Json
 CONSTANT LogFile
 Log == ndJsonDeserialize(LogFile)
 NLog == Len(Log)
@@ -48,26 +48,31 @@ C01Count(nd) ==
    IF IsRoot(nd) THEN Post(nd).vcount = Len(Post(nd).vaults)
    ELSE Post(nd).vcount - Pre(nd).vcount = Len(Post(nd).vaults) - Len(Pre(nd).vaults)
 C01TotalsColl(i) == LET nd == Nd(i) C == Cfg(nd) IN \A p \in Range(C.prods) :
-   LET T(S) == OpenColl(S, p.id) + AwaitingColl(S, p.id) IN
+   LET T(S) == OpenColl(S, p.id) + AwaitingColl(S, p.id) + V1AwaitingColl(S, p.id) IN
    IF IsRoot(nd) THEN TotOf(Post(nd), p.id).coll = T(Post(nd))
    ELSE TotOf(Post(nd), p.id).coll - TotOf(Pre(nd), p.id).coll = T(Post(nd)) - T(Pre(nd))
 AwaitingDebt(S, pid) == SumSeq(S.locked, LAMBDA l : IF l.prod = pid /\ l.initiator = "vault" THEN l.debt ELSE 0)
 (* a vault awaiting auction settlement counts with the debt handed to the auction (principal, interest, closing fee) *)
 C01TotalsMinted(i) == LET nd == Nd(i) C == Cfg(nd) IN \A p \in Range(C.prods) :
-   LET T(S) == OpenMinted(S, p.id) + AwaitingDebt(S, p.id) IN
+   LET T(S) == OpenMinted(S, p.id) + AwaitingDebt(S, p.id) + V1AwaitingMinted(S, p.id) IN
    IF IsRoot(nd) THEN TotOf(Post(nd), p.id).minted = T(Post(nd))
    ELSE TotOf(Post(nd), p.id).minted - TotOf(Pre(nd), p.id).minted = T(Post(nd)) - T(Pre(nd))
-C01TotalsIds(nd) == \A p \in Range(Cfg(nd).prods) : Range(TotOf(Post(nd), p.id).ids) = OpenIds(Post(nd), p.id)
+(* published id list = ids of the open vaults of the product; step form: a step must not create (or change) a discrepancy *)
+IdsOff(S, pid) == <<Range(TotOf(S, pid).ids) \ OpenIds(S, pid), OpenIds(S, pid) \ Range(TotOf(S, pid).ids)>>
+C01TotalsIds(nd) == \A p \in Range(Cfg(nd).prods) :
+   IF IsRoot(nd) THEN IdsOff(Post(nd), p.id) = <<{}, {}>> ELSE IdsOff(Post(nd), p.id) = IdsOff(Pre(nd), p.id)
 
 (* ------------------------------------ C02 ------------------------------------ *)
-P2(i, S) == AllPrincipal(S) + AwaitingPrincipal(i, S, 0)
-P2Pre(i) == AllPrincipal(Pre(Nd(i))) + AwaitingPrincipalPre(i, 0)
+(* recorded principal: open vaults, stable-mint vaults, vaults awaiting auction (V2: ghost, the record keeps the whole debt; V1: LockedVault.AmountOut), *)
+(* and the debt registered for emergency redemption (x/esm's redemption book)                                                                              *)
+P2(i, S) == AllPrincipal(S) + AwaitingPrincipal(i, S, 0) + V1AwaitingPrincipal(S) + EsmDebt(S, Debt)
+P2Pre(i) == AllPrincipal(Pre(Nd(i))) + AwaitingPrincipalPre(i, 0) + V1AwaitingPrincipal(Pre(Nd(i))) + EsmDebt(Pre(Nd(i)), Debt)
 DSupply(nd) == Post(nd).supply[Debt] - Pre(nd).supply[Debt]
 C02Backed(i) == LET nd == Nd(i) IN
    IF IsRoot(nd) THEN Post(nd).supply[Debt] - Post(nd).fixtureMint <= P2(i, Post(nd))
    ELSE DSupply(nd) <= P2(i, Post(nd)) - P2Pre(i)
 C02ExactNoLiq(i) == LET nd == Nd(i) IN
-   ~IsRoot(nd) /\ LockedIds(Pre(nd)) \subseteq LockedIds(Post(nd)) => DSupply(nd) = P2(i, Post(nd)) - P2Pre(i)
+   ~IsRoot(nd) /\ LockedIds(Pre(nd)) \subseteq LockedIds(Post(nd)) /\ V1LockedIds(Pre(nd)) \subseteq V1LockedIds(Post(nd)) => DSupply(nd) = P2(i, Post(nd)) - P2Pre(i)
 C02MintDelivery(i) == LET nd == Nd(i) IN
    nd.a \in MintOps /\ Ok(nd) /\ HasProd(Cfg(nd), nd.args.p) =>
      LET m == DSupply(nd)
@@ -90,31 +95,44 @@ C03MinRatio(nd) ==
      LET v == VaultOf(S, U(nd), p.id)
          debt == IF nd.a = "Create" THEN v.out ELSE TotalDebt(v)
      IN CRAtLeast(C, S, p, v.in, debt, p.minCr.num, p.minCr.den)
-C03Floor(nd) == \A v \in Range(Post(nd).vaults) : v.out >= ProdOf(Cfg(nd), v.prod).floor
-C03Ceiling(nd) == \A p \in Range(Cfg(nd).prods) : OpenMinted(Post(nd), p.id) <= p.ceiling
+(* step form: judged on the step that sets a vault's principal (new vault, or principal changed), so that one vault left below the floor is one *)
+(* failing node. Floor and ceiling are "never" clauses of the statement: they are judged under emergency shutdown too (only the ratio requirement is *)
+(* scoped "outside emergency shutdown").                                                                                                            *)
+PrincipalSet(nd) == {v \in Range(Post(nd).vaults) : IsRoot(nd) \/ ~HasVault(Pre(nd), v.id) \/ VaultById(Pre(nd), v.id).out # v.out}
+C03Floor(nd) == \A v \in PrincipalSet(nd) : v.out >= ProdOf(Cfg(nd), v.prod).floor
+(* step form: a step that raises the principal outstanding across a product must leave it within the ceiling *)
+C03Ceiling(nd) == \A p \in Range(Cfg(nd).prods) :
+   IsRoot(nd) \/ OpenMinted(Post(nd), p.id) > OpenMinted(Pre(nd), p.id) => OpenMinted(Post(nd), p.id) <= p.ceiling
 C03InactivePrice(nd) ==
    nd.a \in RiskOps /\ HasProd(Cfg(nd), nd.args.p) /\ ~PricesActive(Cfg(nd), Pre(nd), ProdOf(Cfg(nd), nd.args.p)) /\ ~ProdOf(Cfg(nd), nd.args.p).stable
       => ~Ok(nd)
 
 (* ------------------------------------ C09 ------------------------------------ *)
 Seized(nd) == {l \in Range(Post(nd).locked) : l.id \notin LockedIds(Pre(nd)) /\ l.initiator = "vault"}
-C09OnlyUnsafe(nd) == ~IsRoot(nd) => \A l \in Seized(nd) :
-   HasVault(Pre(nd), l.orig) /\ Unsafe(Cfg(nd), Pre(nd), VaultById(Pre(nd), l.orig))
-                                /\ Enabled(Cfg(nd), Pre(nd), VaultById(Pre(nd), l.orig))
+C09OnlyUnsafe(nd) == ~IsRoot(nd) =>
+   /\ \A l \in Seized(nd) :
+        HasVault(Pre(nd), l.orig) /\ Unsafe(Cfg(nd), Pre(nd), VaultById(Pre(nd), l.orig))
+                                     /\ Enabled(Cfg(nd), Pre(nd), VaultById(Pre(nd), l.orig))
+   /\ V1OnlyUnsafe(Cfg(nd), Pre(nd), Post(nd))            \* first generation: MsgLiquidateVault and the V1 sweep
 C09SeizeExact(nd) == ~IsRoot(nd) => \A l \in Seized(nd) :
    HasVault(Pre(nd), l.orig) /\ ~HasVault(Post(nd), l.orig) /\
    LET v == VaultById(Pre(nd), l.orig) IN
      /\ l.coll = v.in
      /\ Cardinality({a \in Range(Post(nd).auctions) : a.lv = l.id}) = 1
      /\ \A a \in Range(Post(nd).auctions) : a.lv = l.id => a.collLeft = v.in /\ a.debtLeft = l.target
+C09SeizeExactV1(nd) == ~IsRoot(nd) => V1SeizeExact(Cfg(nd), Pre(nd), Post(nd))
 NewLocked(nd) == {l \in Range(Post(nd).locked) : l.id \notin LockedIds(Pre(nd))}
 C09CustodyMoves(nd) == ~IsRoot(nd) /\ AuctionIds(Pre(nd)) \subseteq AuctionIds(Post(nd)) /\ nd.a # "Bid" =>
    \A d \in CollDenoms :
       Post(nd).bal.auctionsV2[d] - Pre(nd).bal.auctionsV2[d]
         = SumSeq(Post(nd).locked, LAMBDA l : IF l \in NewLocked(nd) /\ l.collD = d THEN l.coll ELSE 0)
 
+C09CustodyMovesV1(nd) == ~IsRoot(nd) /\ V1AuctionIds(Pre(nd)) \subseteq V1AuctionIds(Post(nd)) /\ nd.a # "V1Bid" =>
+   \A d \in CollDenoms : V1CustodyMoves(Cfg(nd), Pre(nd), Post(nd), d)
+
 (* bounded-response ghost: consecutive blocks during which vault vid stayed open, unsafe and enabled *)
-StillBad(C, S, vid) == HasVault(S, vid) /\ Unsafe(C, S, VaultById(S, vid)) /\ Enabled(C, S, VaultById(S, vid))
+StillBad(C, S, vid) == HasVault(S, vid) /\ Unsafe(C, S, VaultById(S, vid)) /\ EnabledV2(C, S, VaultById(S, vid))
+StillBadV1(C, S, vid) == HasVault(S, vid) /\ Unsafe(C, S, VaultById(S, vid)) /\ Enabled(C, S, VaultById(S, vid))
 RECURSIVE BadBlocks(_, _)
 BadBlocks(i, vid) ==
   LET nd == Nd(i) IN
@@ -129,6 +147,21 @@ C09Live(i) == LET nd == Nd(i) IN
   nd.a = "Block" => \A v \in Range(Post(nd).vaults) :
      BadBlocks(i, v.id) <= 2 * CeilDiv(MaxLen(i, v.id), Cfg(nd).batch)
 
+(* the same bounded response for the first-generation sweep, whose "blocks" are the runs of x/liquidation's begin blocker (V1Sweep) *)
+RECURSIVE BadSweepsV1(_, _)
+BadSweepsV1(i, vid) ==
+  LET nd == Nd(i) IN
+  IF IsRoot(nd) \/ ~StillBadV1(Cfg(nd), Post(nd), vid) \/ ~StillBadV1(Cfg(nd), Pre(nd), vid) THEN 0
+  ELSE (IF nd.a = "V1Sweep" /\ Ok(nd) THEN 1 ELSE 0) + BadSweepsV1(nd.parent, vid)
+RECURSIVE MaxLenV1(_, _)
+MaxLenV1(i, vid) ==
+  LET nd == Nd(i) IN
+  IF IsRoot(nd) \/ ~StillBadV1(Cfg(nd), Pre(nd), vid) THEN Len(Post(nd).vaults)
+  ELSE Max2(Len(Post(nd).vaults), MaxLenV1(nd.parent, vid))
+C09LiveV1(i) == LET nd == Nd(i) IN
+  nd.a = "V1Sweep" => \A v \in Range(Post(nd).vaults) :
+     BadSweepsV1(i, v.id) <= 2 * CeilDiv(MaxLenV1(i, v.id), Cfg(nd).v1.batch)
+
 (* ------------------------------------ C10 ------------------------------------ *)
 BidOk(nd) == nd.a = "Bid" /\ Ok(nd) /\ nd.args.v \in AuctionIds(Pre(nd))
 BidAuction(nd) == AuctionById(Pre(nd), nd.args.v)
@@ -136,19 +169,39 @@ BidLocked(nd) == LockedById(Pre(nd), BidAuction(nd).lv)
 Paid(nd) == Pre(nd).ubal[U(nd)][BidAuction(nd).debtD] - Post(nd).ubal[U(nd)][BidAuction(nd).debtD]
 Received(nd) == Post(nd).ubal[U(nd)][BidAuction(nd).collD] - Pre(nd).ubal[U(nd)][BidAuction(nd).collD]
 OwnBid(nd) == BidLocked(nd).owner = U(nd) \/ (BidLocked(nd).ikeeper /\ BidLocked(nd).keeper = U(nd)) \/ BidLocked(nd).ext = U(nd)
-C10PaidWithinTarget(nd) == BidOk(nd) /\ BidAuction(nd).dutch /\ ~OwnBid(nd) => Paid(nd) >= 0 /\ Paid(nd) <= BidAuction(nd).debtLeft
-C10ReceivedWithinSeized(nd) == BidOk(nd) /\ BidAuction(nd).dutch /\ ~OwnBid(nd) => Received(nd) >= 0 /\ Received(nd) <= BidAuction(nd).collLeft
+(* first generation: the bid names the collateral amount wanted (args.x of denom args.d); args.v = V1 auction id *)
+BidOkV1(nd) == nd.a = "V1Bid" /\ Ok(nd) /\ nd.args.v \in V1AuctionIds(Pre(nd))
+BidAuctionV1(nd) == V1AuctionById(Pre(nd), nd.args.v)
+OwnBidV1(nd) == BidAuctionV1(nd).owner = U(nd)
+ClosingV1(nd) == BidOkV1(nd) /\ V1Closed(Pre(nd), Post(nd), BidAuctionV1(nd))
+C10PaidWithinTarget(nd) ==
+   /\ BidOk(nd) /\ BidAuction(nd).dutch /\ ~OwnBid(nd) => Paid(nd) >= 0 /\ Paid(nd) <= BidAuction(nd).debtLeft
+   /\ BidOkV1(nd) => V1PaidWithinTarget(Pre(nd), Post(nd), U(nd), BidAuctionV1(nd))
+C10ReceivedWithinSeized(nd) ==
+   /\ BidOk(nd) /\ BidAuction(nd).dutch /\ ~OwnBid(nd) => Received(nd) >= 0 /\ Received(nd) <= BidAuction(nd).collLeft
+   /\ BidOkV1(nd) /\ ~OwnBidV1(nd) => V1ReceivedWithinSeized(Pre(nd), Post(nd), U(nd), BidAuctionV1(nd))
+C10PostedPriceV1(nd) == BidOkV1(nd) /\ ~OwnBidV1(nd) => V1PostedPrice(Cfg(nd), Pre(nd), Post(nd), U(nd), BidAuctionV1(nd))
+C10BidBookedV1(nd) == BidOkV1(nd) /\ ~OwnBidV1(nd) => V1BidBooked(Pre(nd), Post(nd), U(nd), BidAuctionV1(nd))
 C10PostedPrice(nd) == BidOk(nd) /\ BidAuction(nd).dutch /\ ~OwnBid(nd) /\ Received(nd) > 1 =>
    LET a == BidAuction(nd) C == Cfg(nd)
        pDebt == IF BidLocked(nd).cmst THEN 1000000 ELSE PriceRec(Pre(nd), a.debtD).twa
        lhs == LMulSmall(LMulSmall(a.price, Received(nd) - 1), DecOf(C, a.debtD))
        rhs == LMulBig(LMulSmall(LMulSmall(E18, Paid(nd) + 1 + a.bonusLeft), DecOf(C, a.collD)), pDebt)   \* one unit of rounding on either coin
    IN LLe(lhs, rhs)
-C10PriceFalls(nd) == nd.a = "Block" => \A a \in Range(Post(nd).auctions) :
-   a.dutch /\ a.id \in AuctionIds(Pre(nd)) /\ AuctionById(Pre(nd), a.id).start = a.start => LLe(a.price, AuctionById(Pre(nd), a.id).price)
+C10PriceFalls(nd) ==
+   /\ nd.a = "Block" => \A a \in Range(Post(nd).auctions) :
+        a.dutch /\ a.id \in AuctionIds(Pre(nd)) /\ AuctionById(Pre(nd), a.id).start = a.start => LLe(a.price, AuctionById(Pre(nd), a.id).price)
+   /\ ~IsRoot(nd) => V1PriceFalls(Pre(nd), Post(nd))
 C10PriceInBand(nd) == \A a \in Range(Post(nd).auctions) : a.dutch =>
    /\ LLe(a.price, a.init)
    /\ LLe(LMulSmall(a.init, Cfg(nd).discount.num), LMulSmall(a.price, Cfg(nd).discount.den))
+(* step form: judged on the step that posts the price (new auction, price update, restart), so that one bad price is one failing node *)
+V1Posted(nd) == {a \in Range(Post(nd).auctionsV1) : IsRoot(nd) \/ a.id \notin V1AuctionIds(Pre(nd)) \/ ~LEq(a.price, V1AuctionById(Pre(nd), a.id).price)}
+C10PriceNotAboveStartV1(nd) == \A a \in V1Posted(nd) : LLe(a.price, a.init)
+C10PriceNotBelowEndV1(nd) == \A a \in V1Posted(nd) : LLe(a.endp, a.price)
+(* independent weaker floor that stays armed while KF-C10-V1-1 is open: never below what whole-second truncation of the time-to-zero-price explains *)
+C10PriceFloorV1(nd) == \A a \in V1Posted(nd) : V1PriceFloor(Cfg(nd), a)
+C10StartPriceV1(nd) == ~IsRoot(nd) => V1StartPrice(Cfg(nd), Pre(nd), Post(nd))
 C10StartPrice(nd) == \A a \in Range(Post(nd).auctions) :
    a.dutch /\ (a.id \notin AuctionIds(Pre(nd)) \/ AuctionById(Pre(nd), a.id).start # a.start) =>
       LET twa == PriceRec(Post(nd), a.collD).twa IN
@@ -161,10 +214,19 @@ DebtHeld(S) == AuctionDebtHeld(S, Debt) + S.aucfees.external + S.aucfees.limit
 C10CustodyDebt(nd) ==
    IF IsRoot(nd) THEN Post(nd).bal.auctionsV2[Debt] = DebtHeld(Post(nd))
    ELSE Post(nd).bal.auctionsV2[Debt] - Pre(nd).bal.auctionsV2[Debt] = DebtHeld(Post(nd)) - DebtHeld(Pre(nd))
+C10CustodyCollV1(nd) == \A d \in CollDenoms :
+   IF IsRoot(nd) THEN Post(nd).bal.auctionV1[d] = V1AuctionColl(Post(nd), d) ELSE V1CustodyColl(Pre(nd), Post(nd), d)
+C10CustodyDebtV1(nd) ==
+   IF IsRoot(nd) THEN Post(nd).bal.auctionV1[Debt] = V1AuctionDebt(Post(nd), Debt) ELSE V1CustodyDebt(Pre(nd), Post(nd), Debt)
 Closing(nd) == BidOk(nd) /\ nd.args.v \notin AuctionIds(Post(nd))
-C10OwnerGetsRest(nd) == Closing(nd) /\ BidAuction(nd).dutch /\ ~OwnBid(nd) /\ BidLocked(nd).initiator \in {"vault", "external"} /\ BidLocked(nd).owner \notin {"other", "none"} =>
-   LET o == BidLocked(nd).owner d == BidAuction(nd).collD IN
-   Post(nd).ubal[o][d] - Pre(nd).ubal[o][d] = BidAuction(nd).collLeft - Received(nd)
+C10OwnerGetsRest(nd) ==
+   /\ Closing(nd) /\ BidAuction(nd).dutch /\ ~OwnBid(nd) /\ BidLocked(nd).initiator \in {"vault", "external"} /\ BidLocked(nd).owner \notin {"other", "none"} =>
+        LET o == BidLocked(nd).owner d == BidAuction(nd).collD IN
+        Post(nd).ubal[o][d] - Pre(nd).ubal[o][d] = BidAuction(nd).collLeft - Received(nd)
+   /\ ClosingV1(nd) => V1OwnerGetsRest(Pre(nd), Post(nd), U(nd), BidAuctionV1(nd))
+(* first generation, close inside the bid: principal burnt (C02), collected minus principal to the collector and booked as net fees *)
+C02BurnAtCloseV1(nd) == ClosingV1(nd) => V1BurnAtClose(Pre(nd), Post(nd), BidAuctionV1(nd))
+C10PenaltyRoutedV1(nd) == ClosingV1(nd) => V1PenaltyRouted(Cfg(nd), Pre(nd), Post(nd), U(nd), BidAuctionV1(nd))
 C10PenaltyRouted(nd) == Closing(nd) /\ BidAuction(nd).dutch /\ BidLocked(nd).initiator = "vault" =>
    LET l == BidLocked(nd)
        inc == IF l.ikeeper THEN FloorMul(l.fee, Cfg(nd).keeperIncentive) ELSE 0
@@ -183,12 +245,29 @@ C10ExternalProceeds(nd) == Closing(nd) /\ BidAuction(nd).dutch /\ BidLocked(nd).
 IdSeq(S) == [k \in 1..Len(S.vaults) |-> S.vaults[k].id]
 ConfBlock(nd) == nd.a = "Block" /\ Ok(nd) =>
    LET C == Cfg(nd) S == Pre(nd)
-       UU == {v.id : v \in {x \in Range(S.vaults) : Unsafe(C, S, x) /\ Enabled(C, S, x)}}
+       UU == {v.id : v \in {x \in Range(S.vaults) : Unsafe(C, S, x) /\ EnabledV2(C, S, x)}}
        r == SweepStep(IdSeq(S), S.offset, C.batch, UU)
-   IN /\ IdSeq(Post(nd)) = r.list
-      /\ Post(nd).offset = r.offset
-      /\ {l.orig : l \in Seized(nd)} = r.seized
+   IN IF S.ctl.esm THEN Seized(nd) = {}       \* under emergency shutdown other hooks of the block re-shape the vault list (redemption, close-outs); the sweep seizes nothing
+      ELSE /\ IdSeq(Post(nd)) = r.list
+           /\ Post(nd).offset = r.offset
+           /\ {l.orig : l \in Seized(nd)} = r.seized
 
+(* the V1 sweep (x/liquidation LiquidateVaults) is the same step of Sweep.tla with its own offset and batch size; it does *)
+(* nothing at all - not even advance the offset - while the breaker or emergency shutdown is on                          *)
+ConfV1Sweep(nd) == nd.a = "V1Sweep" /\ Ok(nd) =>
+   LET C == Cfg(nd) S == Pre(nd)
+       UU == {v.id : v \in {x \in Range(S.vaults) : Unsafe(C, S, x) /\ Enabled(C, S, x)}}
+       r == SweepStep(IdSeq(S), S.offsetV1, C.v1.batch, UU)
+   IN IF S.ctl.breaker \/ S.ctl.esm
+      THEN IdSeq(Post(nd)) = IdSeq(S) /\ Post(nd).offsetV1 = S.offsetV1 /\ V1Seized(S, Post(nd)) = {}
+      ELSE /\ IdSeq(Post(nd)) = r.list
+           /\ Post(nd).offsetV1 = r.offset
+           /\ {l.orig : l \in V1Seized(S, Post(nd))} = r.seized
+ConfV1Liquidate(nd) == nd.a = "V1Liquidate" /\ ~Cfg(nd).interest /\ ~IsRoot(nd) => V1LiquidateConforms(Cfg(nd), Pre(nd), nd.args, Ok(nd), Post(nd))
+
+ConfV1Bid(nd) == nd.a = "V1Bid" /\ ~IsRoot(nd) /\ (Ok(nd) => nd.args.v \in V1AuctionIds(Pre(nd)) /\ ~OwnBidV1(nd)) => V1BidConforms(Cfg(nd), Pre(nd), nd.args, Ok(nd), Post(nd))
+ConfV1Tick(nd) == nd.a = "V1Tick" /\ ~IsRoot(nd) => V1TickConforms(Cfg(nd), Pre(nd), Ok(nd), Post(nd))
+ConfEsm(nd) == nd.a \in {"EsmDeposit", "EsmExecute"} /\ ~IsRoot(nd) => EsmStepConforms(Cfg(nd), Pre(nd), nd.a, nd.args, Ok(nd), Post(nd))
 ConfVault(nd) == nd.a \in VaultOps /\ ~Cfg(nd).interest /\ ~IsRoot(nd) => VaultStepConforms(Cfg(nd), Pre(nd), nd.a, nd.args, Ok(nd), Post(nd))
 
 Formulas == <<"C01_Custody", "C01_Count", "C01_TotalsColl", "C01_TotalsMinted", "C01_TotalsIds",
@@ -197,7 +276,9 @@ Formulas == <<"C01_Custody", "C01_Count", "C01_TotalsColl", "C01_TotalsMinted", 
               "C09_OnlyUnsafe", "C09_SeizeExact", "C09_CustodyMoves", "C09_Live",
               "C10_PaidWithinTarget", "C10_ReceivedWithinSeized", "C10_PostedPrice", "C10_PriceFalls", "C10_PriceInBand",
               "C10_StartPrice", "C10_CustodyColl", "C10_CustodyDebt", "C10_OwnerGetsRest", "C10_PenaltyRouted", "C10_ExternalProceeds",
-              "Conf_Vault", "Conf_Block">>
+              "C02_BurnAtClose_V1", "C09_SeizeExact_V1", "C09_CustodyMoves_V1", "C09_Live_V1",
+              "C10_PostedPrice_V1", "C10_BidBooked_V1", "C10_PriceNotAboveStart_V1", "C10_PriceNotBelowEnd_V1", "C10_PriceFloor_V1", "C10_StartPrice_V1", "C10_CustodyColl_V1", "C10_CustodyDebt_V1", "C10_PenaltyRouted_V1",
+              "Conf_Vault", "Conf_Block", "Conf_V1Sweep", "Conf_V1Liquidate", "Conf_V1Bid", "Conf_V1Tick", "Conf_Esm">>
 Holds(f, i) ==
   LET nd == Nd(i) IN
   CASE f = "C01_Custody" -> C01Custody(nd)
@@ -230,6 +311,24 @@ Holds(f, i) ==
     [] f = "C10_OwnerGetsRest" -> C10OwnerGetsRest(nd)
     [] f = "C10_PenaltyRouted" -> C10PenaltyRouted(nd)
     [] f = "C10_ExternalProceeds" -> C10ExternalProceeds(nd)
+    [] f = "C02_BurnAtClose_V1" -> C02BurnAtCloseV1(nd)
+    [] f = "C09_SeizeExact_V1" -> C09SeizeExactV1(nd)
+    [] f = "C09_CustodyMoves_V1" -> C09CustodyMovesV1(nd)
+    [] f = "C09_Live_V1" -> C09LiveV1(i)
+    [] f = "C10_PostedPrice_V1" -> C10PostedPriceV1(nd)
+    [] f = "C10_BidBooked_V1" -> C10BidBookedV1(nd)
+    [] f = "C10_PriceNotAboveStart_V1" -> C10PriceNotAboveStartV1(nd)
+    [] f = "C10_PriceNotBelowEnd_V1" -> C10PriceNotBelowEndV1(nd)
+    [] f = "C10_PriceFloor_V1" -> C10PriceFloorV1(nd)
+    [] f = "C10_StartPrice_V1" -> C10StartPriceV1(nd)
+    [] f = "C10_CustodyColl_V1" -> C10CustodyCollV1(nd)
+    [] f = "C10_CustodyDebt_V1" -> C10CustodyDebtV1(nd)
+    [] f = "C10_PenaltyRouted_V1" -> C10PenaltyRoutedV1(nd)
+    [] f = "Conf_V1Sweep" -> ConfV1Sweep(nd)
+    [] f = "Conf_V1Liquidate" -> ConfV1Liquidate(nd)
+    [] f = "Conf_V1Bid" -> ConfV1Bid(nd)
+    [] f = "Conf_V1Tick" -> ConfV1Tick(nd)
+    [] f = "Conf_Esm" -> ConfEsm(nd)
     [] f = "Conf_Vault" -> ConfVault(nd)
     [] f = "Conf_Block" -> ConfBlock(nd)
 
@@ -255,6 +354,35 @@ Stats == PrintT(<<"STATS", [nodes |-> NLog,
    blocks |-> Cnt(LAMBDA nd : nd.a = "Block"),
    longWaits |-> Cardinality({i \in 1..NLog : Nd(i).a = "Block" /\ \E v \in Range(Post(Nd(i)).vaults) : BadBlocks(i, v.id) >= 2}),
    sweepRuns |-> Cnt(LAMBDA nd : IsRoot(nd) /\ nd.run \in {"sweepsim", "sweepadv"}),
+   esmExecuted |-> Cnt(LAMBDA nd : nd.a = "EsmExecute" /\ Ok(nd)),
+   esmSteps |-> Cnt(LAMBDA nd : ~IsRoot(nd) /\ Pre(nd).ctl.esm),
+   esmSnapshots |-> Cnt(LAMBDA nd : nd.st.ev.esmSnap),
+   esmVaultRedemptions |-> Cnt(LAMBDA nd : nd.st.ev.esmVaultRed /\ Len(Pre(nd).vaults) > 0),
+   esmStableRedemptions |-> Cnt(LAMBDA nd : nd.st.ev.esmStableRed /\ Len(Pre(nd).svaults) > 0),
+   esmCollectorBurns |-> Cnt(LAMBDA nd : nd.st.ev.esmCollTx /\ DSupply(nd) < 0),
+   esmV2CloseOuts |-> Cnt(LAMBDA nd : nd.st.ev.v2Esm),
+   esmV1CloseOuts |-> Cnt(LAMBDA nd : nd.st.ev.v1EsmDue > 0 /\ Len(Post(nd).auctionsV1) < Len(Pre(nd).auctionsV1)),
+   esmRedemptions |-> Cnt(LAMBDA nd : nd.a = "EsmRedeem" /\ Ok(nd)),
+   esmCoolOffWithdrawals |-> Cnt(LAMBDA nd : nd.a = "Withdraw" /\ Ok(nd) /\ Pre(nd).ctl.esm),
+   esmRejectedMints |-> Cnt(LAMBDA nd : nd.a \in MintOps /\ ~Ok(nd) /\ Pre(nd).ctl.esm),
+   esmVaultsBelowFloor |-> Cnt(LAMBDA nd : Pre(nd).ctl.esm /\ \E v \in PrincipalSet(nd) : v.out < ProdOf(Cfg(nd), v.prod).floor),
+   esmRedemptionsPayingNothing |-> Cnt(LAMBDA nd : nd.a = "EsmRedeem" /\ Ok(nd) /\ RedeemPaysNothing(Pre(nd), Post(nd), U(nd))),
+   esmRedemptionsAboveProRata |-> Cnt(LAMBDA nd : nd.a = "EsmRedeem" /\ Ok(nd) /\ \E d \in CollDenoms : ~RedeemWithinProRata(Pre(nd), Post(nd), U(nd), nd.args.x, d)),
+   v1Seizures |-> Cnt(LAMBDA nd : ~IsRoot(nd) /\ V1Seized(Pre(nd), Post(nd)) # {}),
+   v1MsgSeizures |-> Cnt(LAMBDA nd : nd.a = "V1Liquidate" /\ V1Seized(Pre(nd), Post(nd)) # {}),
+   v1SweepSeizures |-> Cnt(LAMBDA nd : nd.a = "V1Sweep" /\ V1Seized(Pre(nd), Post(nd)) # {}),
+   v1SafeLiquidateAttempts |-> Cnt(LAMBDA nd : nd.a = "V1Liquidate" /\ HasVault(Pre(nd), nd.args.v) /\ ~Unsafe(Cfg(nd), Pre(nd), VaultById(Pre(nd), nd.args.v))),
+   v1Bids |-> Cnt(LAMBDA nd : BidOkV1(nd)),
+   v1Closes |-> Cnt(LAMBDA nd : ClosingV1(nd)),
+   v1LossyCloses |-> Cnt(LAMBDA nd : ClosingV1(nd) /\ V1Lossy(Pre(nd), Post(nd), U(nd), BidAuctionV1(nd))),
+   v1PriceChecks |-> Cnt(LAMBDA nd : BidOkV1(nd) /\ ~OwnBidV1(nd) /\ V1Received(Pre(nd), Post(nd), U(nd), BidAuctionV1(nd)) > 1),
+   v1Ticks |-> Cnt(LAMBDA nd : nd.a = "V1Tick" /\ Len(Pre(nd).auctionsV1) > 0),
+   v1PriceMoves |-> Cnt(LAMBDA nd : nd.a = "V1Tick" /\ \E a \in Range(Post(nd).auctionsV1) : a.id \in V1AuctionIds(Pre(nd)) /\ V1AuctionById(Pre(nd), a.id).start = a.start /\ ~LEq(a.price, V1AuctionById(Pre(nd), a.id).price)),
+   v1EndPriceHits |-> Cnt(LAMBDA nd : nd.a = "V1Tick" /\ \E a \in V1Posted(nd) : Post(nd).t = a.end),
+   v1Restarts |-> Cnt(LAMBDA nd : nd.a = "V1Tick" /\ \E a \in Range(Post(nd).auctionsV1) : a.id \in V1AuctionIds(Pre(nd)) /\ V1AuctionById(Pre(nd), a.id).start # a.start),
+   v1LongWaits |-> Cardinality({i \in 1..NLog : Nd(i).a = "V1Sweep" /\ \E v \in Range(Post(Nd(i)).vaults) : BadSweepsV1(i, v.id) >= 1}),
+   v1Sweeps |-> Cnt(LAMBDA nd : nd.a = "V1Sweep"),
+   v1ConfChecked |-> Cnt(LAMBDA nd : nd.a = "V1Liquidate" /\ ~Cfg(nd).interest /\ ~IsRoot(nd)),
    confChecked |-> Cnt(LAMBDA nd : nd.a \in VaultOps /\ ~Cfg(nd).interest /\ ~IsRoot(nd)) ]>>)
 AllSeen == Stats /\ TLCGet("stats").distinct = NLog
 =============================================================================
